@@ -68,10 +68,28 @@ def ev_is_set(I, args, kw):
     return I.path.ghost.setdefault("events", {}).get(id(args[0]), False)
 
 
+def select_select(I, args, kw):
+    """select.select(r, w, x, timeout): any subset of each list may be reported ready (A-EXT)."""
+    import z3 as _z3
+    from .values import SeqV as _SeqV, Sym as _Sym
+    out = []
+    for lst in args[:3]:
+        items = I.iter_concrete(lst)
+        ready = []
+        for it in items:
+            b = _z3.Bool(I.path.fresh_name("ready"))
+            if I.path.decide(b):
+                ready.append(it)
+        out.append(I.path.alloc(__import__("pyvc.values", fromlist=["SeqCell"]).SeqCell(_SeqV("list", None, items=ready))))
+    return _SeqV("tuple", None, items=out)
+
+
 def build():
     C = threading.Condition
     E = threading.Event
+    import select as _select
     m = {
+        _select.select: select_select,
         C.wait_for: cond_wait_for, C.wait: cond_wait, C.notify: noop, C.notify_all: noop,
         E.wait: ev_wait, E.set: ev_set, E.clear: ev_clear, E.is_set: ev_is_set,
     }
